@@ -2388,3 +2388,15 @@ impl RtpTransport {
         snap
     }
 }
+
+/// verif hook (lifecycle, C10): read-only view of the installed SRTP session's keys.
+#[cfg(rustrtc_verif)]
+impl RtpTransport {
+    pub fn verif_lc_srtp_keying(
+        &self,
+    ) -> Option<(crate::srtp::SrtpProfile, Vec<u8>, Vec<u8>, Vec<u8>, Vec<u8>)> {
+        let session = self.srtp_session.lock().as_ref().cloned()?;
+        let keys = session.lock().verif_lc_keying();
+        Some(keys)
+    }
+}
